@@ -36,10 +36,10 @@ def gen_example(rnd, idx):
     return {"family": "examples", "id": "ex-" + name, "text": "\n".join(texts), "texts": texts, "planted": False, "example": name}
 
 
-GEN = {"cyc": plangen.gen_cyc, "sx": plangen.gen_sx, "sv": plangen.gen_sv, "rr": plangen.gen_rr, "tl": plangen.gen_tl, "rules": plangen.gen_rules, "examples": gen_example}
+GEN = {"sync": plangen.gen_sync, "cyc": plangen.gen_cyc, "sx": plangen.gen_sx, "sv": plangen.gen_sv, "rr": plangen.gen_rr, "tl": plangen.gen_tl, "rules": plangen.gen_rules, "examples": gen_example}
 # which families each property runs (the others' failures are counted, not reported)
-FAMILIES = {"C01": ["sv", "rr", "rules", "sx"], "C02": ["sv", "rr", "rules", "sx", "cyc"], "C03": ["rules", "sv", "cyc", "examples"], "C04": ["sv", "sx", "examples"], "C05": ["rr", "sx", "examples"],
-            "C06": ["tl", "sv", "rr", "sx", "examples"]}
+FAMILIES = {"C01": ["sv", "rr", "rules", "sx"], "C02": ["sv", "rr", "rules", "sx", "cyc", "sync"], "C03": ["rules", "sv", "cyc", "examples"], "C04": ["sv", "sx", "examples"], "C05": ["rr", "sx", "examples"],
+            "C06": ["tl", "sv", "rr", "sx", "sync", "examples"]}
 
 
 def fr(v):
@@ -432,7 +432,12 @@ def work(exes, family, start, n, owner):
     for i in range(n):
         case = GEN[family](rnd, start + i)
         variant = names[(start + i) % len(names)]
-        out = solverlib.run_probe(exes[variant], case.get("texts") or [case["text"]], timeout=10.0 if family == "sx" else 30.0)
+        if case.get("parts") and (start + i) % 4 == 3:
+            # the requirements arrive in two scripts with a solve() in between (read at root level, as the ROS executor does)
+            out = solverlib.run_probe(exes[variant], case["parts"], timeout=10.0, incremental=True)
+            part.count("%s: programs read incrementally" % family)
+        else:
+            out = solverlib.run_probe(exes[variant], case.get("texts") or [case["text"]], timeout=10.0 if family == "sx" else 30.0)
         fp = common.fingerprint(case["text"])
         st = out.status
         if st == "timeout":
